@@ -1,0 +1,46 @@
+//! Wrappers for the write-side frame encoder and the NULL framer.
+use crate::error::ZmqError;
+use crate::message::{FrameBatch, Msg};
+use crate::security::framer::encoder::ZmtpFrameEncoder;
+use crate::security::framer::{ISecureFramer, NullFramer};
+use bytes::{Bytes, BytesMut};
+
+pub struct VFrameEncoder(ZmtpFrameEncoder);
+
+impl VFrameEncoder {
+  pub fn new(initial_header_cap: usize, initial_coalesce_cap: usize) -> Self {
+    Self(ZmtpFrameEncoder::new(initial_header_cap, initial_coalesce_cap))
+  }
+  pub fn frame_contiguous(&mut self, batch: &[FrameBatch]) -> Result<Bytes, ZmqError> {
+    self.0.frame_contiguous(batch)
+  }
+  pub fn frame_vectored(&mut self, batch: &[FrameBatch]) -> Result<Vec<Bytes>, ZmqError> {
+    self.0.frame_vectored(batch)
+  }
+}
+
+pub struct VNullFramer(NullFramer);
+
+impl VNullFramer {
+  pub fn new(max_msg_size: i64, sndbatch_count: usize, sndbatch_bytes_physical: usize) -> Self {
+    Self(NullFramer::new(max_msg_size, sndbatch_count, sndbatch_bytes_physical))
+  }
+  pub fn try_read_msg(&mut self, buf: &mut BytesMut) -> Result<Option<Msg>, ZmqError> {
+    self.0.try_read_msg(buf)
+  }
+  pub fn write_msg_multipart(&mut self, msgs: FrameBatch) -> Result<Bytes, ZmqError> {
+    self.0.write_msg_multipart(msgs)
+  }
+  pub fn write_msg_batch(&mut self, batch: &[FrameBatch]) -> Result<Bytes, ZmqError> {
+    self.0.write_msg_batch(batch)
+  }
+  pub fn write_msg_split(&mut self, msg: Msg) -> Result<(Bytes, Option<Bytes>), ZmqError> {
+    self.0.write_msg_split(msg)
+  }
+  pub fn frame_vectored(&mut self, batch: &[FrameBatch]) -> Result<Vec<Bytes>, ZmqError> {
+    self.0.frame_vectored(batch)
+  }
+  pub fn is_passthrough(&self) -> bool {
+    self.0.is_passthrough()
+  }
+}
